@@ -72,11 +72,38 @@ def dotted(node):
     return None
 
 
+def clone(n):
+    """Deep copy of an AST without the analysis attributes (_parent links would drag the whole module along)."""
+    if isinstance(n, ast.AST):
+        new = type(n)()
+        for f in n._fields:
+            if hasattr(n, f):
+                setattr(new, f, clone(getattr(n, f)))
+        for a in ("lineno", "col_offset", "end_lineno", "end_col_offset"):
+            if hasattr(n, a):
+                setattr(new, a, getattr(n, a))
+        if hasattr(n, "_inlined_from"):
+            new._inlined_from = n._inlined_from
+        return new
+    if isinstance(n, list):
+        return [clone(x) for x in n]
+    return n
+
+
+_IL_CACHE = {}
+
+
 def inline_locals(fnode, expr, depth=3):
     """Copy of `expr` in which local names that have exactly one plain assignment in `fnode` (and are never augmented,
     deleted, used as loop/with targets or parameters) are replaced by their (recursively inlined) value.  Makes
     comparisons insensitive to 'introduce a temporary' refactorings."""
-    import copy
+    cached = _IL_CACHE.get(id(fnode))
+    if cached is not None and cached[0] is fnode:
+        T = cached[1]
+        try:
+            return ast.fix_missing_locations(T(depth).visit(clone(expr)))
+        except Exception:
+            return expr
     assigns, banned = {}, set()
     a = fnode.args
     for x in a.posonlyargs + a.args + a.kwonlyargs + ([a.vararg] if a.vararg else []) + ([a.kwarg] if a.kwarg else []):
@@ -110,7 +137,8 @@ def inline_locals(fnode, expr, depth=3):
                     banned.add(n.id)
         elif isinstance(st, ast.NamedExpr):
             banned.add(st.target.id)
-    single = {k: v[0] for k, v in assigns.items() if len(v) == 1 and k not in banned}
+    single = {k: v[0] for k, v in assigns.items() if k not in banned and len(v) == 1}
+    pure = ("len", "int", "min", "max", "abs", "math.ceil", "math.floor", "math.log2", "sum", "bool", "bytes", "str")
 
     class T(ast.NodeTransformer):
         def __init__(self, d):
@@ -118,14 +146,32 @@ def inline_locals(fnode, expr, depth=3):
 
         def visit_Name(self, node):
             if isinstance(node.ctx, ast.Load) and node.id in single and self.d > 0:
-                v = copy.deepcopy(single[node.id])
+                v = clone(single[node.id])
                 # do not inline calls (they may have effects / fresh values) except pure path/arith helpers
-                if any(isinstance(x, (ast.Call, ast.Await, ast.Yield)) for x in ast.walk(v)):
+                if any(isinstance(x, (ast.Await, ast.Yield)) for x in ast.walk(v)) or any(
+                        isinstance(x, ast.Call) and dotted(x.func) not in pure for x in ast.walk(v)):
                     return node
                 return T(self.d - 1).visit(v)
             return node
+    # several assignments are fine when they all spell the same expression once their own temporaries are inlined
+    # (one temporary re-declared per loop)
+    for _ in range(3):
+        grew = False
+        for k, v in assigns.items():
+            if k in banned or k in single or len(v) < 2:
+                continue
+            try:
+                forms = {ast.dump(T(depth).visit(clone(x))) for x in v}
+            except Exception:
+                continue
+            if len(forms) == 1:
+                single[k] = v[0]
+                grew = True
+        if not grew:
+            break
+    _IL_CACHE[id(fnode)] = (fnode, T)
     try:
-        return ast.fix_missing_locations(T(depth).visit(copy.deepcopy(expr)))
+        return ast.fix_missing_locations(T(depth).visit(clone(expr)))
     except Exception:
         return expr
 
@@ -201,6 +247,15 @@ class Module:
         self.classes = {}
         self.globals = {}  # name -> value node (module-level simple assignment)
         self.imports = {}  # local name -> dotted target
+        self._index()
+
+    def reindex(self):
+        """Re-derive the symbol tables after the tree was rewritten (normalize.py)."""
+        set_parents(self.tree)
+        self.functions = {}
+        self.classes = {}
+        self.globals = {}
+        self.imports = {}
         self._index()
 
     def _index(self):
@@ -504,8 +559,18 @@ class Repo:
 _repo_cache = {}
 
 
+def _rebuild(repo, rels):
+    for rel in rels:
+        repo.modules[rel].reindex()
+
+
 def load_repo(root=None):
     root = root or REPO
     if root not in _repo_cache:
-        _repo_cache[root] = Repo(root)
+        repo = Repo(root)
+        repo.normal_notes = []
+        if not os.environ.get("SSEPY_VERIF_RAW"):
+            from . import normalize
+            repo.normal_notes = normalize.normalize(repo, _rebuild)
+        _repo_cache[root] = repo
     return _repo_cache[root]
